@@ -128,7 +128,20 @@ def _observe(H, g, post, rng):
     nlk.append([[], _try(lambda: [iN(x) for x in H.nodes.lookup([])])])
     o["nlookup"] = nlk
     o["lookup"].append([[], _try(lambda: [iE(x) for x in H.edges.lookup([])])])
-    o["dups"] = _try(lambda: [iE(e) for e in H.edges.duplicates()])
+    # duplicates() orders the ids of each class of equal edges: ids that python cannot order against each other
+    # (a numpy integer and a tuple of numpy integers, an int and a string) are outside its domain - not asked
+    def _orderable():
+        classes = {}
+        for e_, m_ in H._edge.items():
+            classes.setdefault(frozenset(m_), []).append(e_)
+        try:
+            for c_ in classes.values():
+                sorted(c_)
+            return True
+        except Exception:  # noqa: BLE001
+            return False
+    o["dupsasked"] = bool(_orderable())
+    o["dups"] = _try(lambda: [iE(e) for e in H.edges.duplicates()]) if o["dupsasked"] else []
     o["iso"] = _try(lambda: [iN(n) for n in H.nodes.isolates()])
     o["isoig"] = _try(lambda: [iN(n) for n in H.nodes.isolates(ignore_singletons=True)])
     o["single"] = _try(lambda: [iE(e) for e in H.edges.singletons()])
